@@ -1,4 +1,40 @@
+(* C05 -- Observations are sound: they never show anything that is not there.
+   world_pos s a i j = the world cell under view cell (i, j) when the view area is placed at the agent's pose;
+   lookupH = the world cell, Hidden outside the grid.  Equality of cells is STRUCTURAL (box contents included).
+   Only statements; every proof is `exact <lemma>`. *)
 From Coq Require Import ZArith List Bool.
 From GV.Model Require Import Obs.
-Theorem C05_placeholder : True.
-Proof. exact I. Qed.
+From GV.Lemmas Require Import GridL RandL GeomL RotL C05L.
+Import ListNotations.
+Open Scope Z_scope.
+
+(* key lemma: rot o (subgrid g (pose . area)) has the area's shape and its cell (i, j) is the world cell under it --
+   for every well-formed area, every pose (edges, corners, outside the grid), all four headings, square or not *)
+Theorem C05_raw_view_spec : forall s a pov, area_ok a = true -> tact_area (mkT (spos s) (sori s)) a = Ok pov ->
+  let og := raw_view s pov in
+  hN og = HN a /\ wN og = WN a /\ wf_grid og /\
+  forall i j, (i < HN a)%nat -> (j < WN a)%nat -> get0 og i j = lookupH (sgrid s) (world_pos s a i j).
+Proof. exact raw_view_spec. Qed.
+(* every built-in observation function (vname), every random outcome: shape, anchor, heading, held item, and every cell is
+   Hidden or IS the world cell *)
+Theorem C05_observation_sound : forall v own rays a s obs, area_ok a = true -> Leaf (from_visibility v own rays a s) (Ok obs) ->
+  hN (sgrid obs) = HN a /\ wN (sgrid obs) = WN a /\ wf_grid (sgrid obs) /\
+  spos obs = (- ymin a, - xmin a) /\ sori obs = FORWARD /\ sheld obs = sheld s /\
+  forall i j, (i < HN a)%nat -> (j < WN a)%nat ->
+    get0 (sgrid obs) i j = Hidden \/ get0 (sgrid obs) i j = lookupH (sgrid s) (world_pos s a i j).
+Proof. exact observation_sound. Qed.
+Theorem C05_outside_is_hidden : forall v own rays a s obs i j, area_ok a = true -> Leaf (from_visibility v own rays a s) (Ok obs) ->
+  (i < HN a)%nat -> (j < WN a)%nat -> in_grid (sgrid s) (world_pos s a i j) = false -> get0 (sgrid obs) i j = Hidden.
+Proof. exact observation_outside_hidden. Qed.
+(* with the fully transparent function every cell of the view is shown; it never raises *)
+Theorem C05_fully_transparent_complete : forall own rays a s, area_ok a = true ->
+  exists obs, from_visibility VFullyTransparent own rays a s = Ret obs /\
+    forall i j, (i < HN a)%nat -> (j < WN a)%nat -> get0 (sgrid obs) i j = lookupH (sgrid s) (world_pos s a i j).
+Proof. exact fully_transparent_complete. Qed.
+
+(* non-vacuity: a non-square asymmetric view from the right edge, heading RIGHT, partly outside a 2x3 grid *)
+Example C05_example :
+  let s := mkS [[Floor; Wall; Key 1]; [Exit 2; Floor; Door 1 4]] (0, 2) RIGHT (Key 3) in
+  from_visibility VFullyTransparent true [] (mkA (-1) 0 (-1) 2) s
+  = Ret (mkS [[Hidden; Hidden; Hidden; Hidden]; [Hidden; Key 1; Door 1 4; Hidden]] (1, 1) FORWARD (Key 3)).
+Proof. vm_compute. reflexivity. Qed.
